@@ -32,6 +32,7 @@ CONSTANTS
   LoadUnderLock = TRUE
   AbsentPurge = FALSE
   Reapplies = FALSE
+  ClientGones = FALSE
   Ghost = TRUE
   GenDepth = 70
 INVARIANT Emit
